@@ -4,9 +4,13 @@ package main
 
 import (
 	"fmt"
+	"net/http/httptest"
+	"strings"
 	"sync/atomic"
 
+	"github.com/formancehq/ledger/xverif/lib/engineh"
 	"github.com/formancehq/ledger/xverif/lib/evid"
+	"github.com/formancehq/ledger/xverif/lib/recbackend"
 )
 
 // c14HTTP: preview as a client asks for it (v1 ?preview=, v2 ?dryRun=) on every write endpoint, followed by the same write
@@ -80,4 +84,55 @@ func c14HTTP(rep *evid.Reporter) (cases int64, sent int64) {
 		}
 	}
 	return
+}
+
+// c14FreshLedger: a preview as the very first request that names a ledger. Whatever a later request on that name is answered
+// (the v1 API creates ledgers on first use, the v2 API does not), it is answered the same with and without the preview.
+func c14FreshLedger(rep *evid.Reporter) int {
+	n := 0
+	type probe struct{ method, path string }
+	probes := []probe{{"GET", "/api/ledger/fresh/transactions"}, {"GET", "/api/ledger/v2/fresh/transactions"}, {"GET", "/api/ledger/v2/fresh"}, {"GET", "/api/ledger/fresh/accounts/a"}, {"HEAD", "/api/ledger/fresh/transactions"}}
+	previews := []probe{
+		{"POST", "/api/ledger/fresh/transactions?preview=true"}, {"POST", "/api/ledger/v2/fresh/transactions?dryRun=true"},
+		{"POST", "/api/ledger/fresh/accounts/a/metadata?preview=true"}, {"POST", "/api/ledger/v2/fresh/accounts/a/metadata?dryRun=true"},
+		{"POST", "/api/ledger/fresh/transactions/0/revert?preview=true"}, {"DELETE", "/api/ledger/v2/fresh/accounts/a/metadata/k?dryRun=true"},
+	}
+	body := `{"postings":[{"source":"world","destination":"a","amount":5,"asset":"X"}]}`
+	send := func(b *recbackend.Backend, pr probe) int {
+		var rd *strings.Reader
+		if pr.method == "POST" && strings.Contains(pr.path, "metadata") {
+			rd = strings.NewReader(`{"k":"v"}`)
+		} else if pr.method == "POST" {
+			rd = strings.NewReader(body)
+		} else {
+			rd = strings.NewReader("")
+		}
+		req := httptest.NewRequest(pr.method, pr.path, rd).WithContext(engineh.QuietCtx())
+		w := httptest.NewRecorder()
+		func() {
+			defer func() { recover() }()
+			newRouter(b, false).ServeHTTP(w, req)
+		}()
+		return w.Code
+	}
+	for _, pv := range previews {
+		for _, pb := range probes {
+			// (within one API version: the v1 API creates a ledger on ANY first request that names it, reads included, so a
+			// v1 preview does what a v1 read would have done; seen through v2 the ledger exists afterwards - DESIGN.md II.5)
+			if strings.Contains(pv.path, "/v2/") != strings.Contains(pb.path, "/v2/") {
+				continue
+			}
+			n++
+			without := recbackend.New() // no ledger exists
+			with := recbackend.New()
+			_ = send(with, pv)
+			a, b := send(without, pb), send(with, pb)
+			ledgersA, ledgersB := len(without.Ledgers), len(with.Ledgers)
+			if a != b || ledgersA != ledgersB {
+				rep.Violation("http-preview-creates:"+pv.path, fmt.Sprintf("%s %s is answered %d (and %d ledgers exist) after the preview %s %s, %d (%d ledgers) without it", pb.method, pb.path, b, ledgersB, pv.method, pv.path, a, ledgersA),
+					map[string]interface{}{"engine": "previewhttp", "preview": pv.path, "then": pb.path})
+			}
+		}
+	}
+	return n
 }
